@@ -456,6 +456,11 @@ fn gen_scan(r: &mut Rng) -> Vec<u8> {
                 0 => t.push('\n'),
                 1 => t.push_str("UNKNOWN_KEY=zzz\n"),
                 2 => t.push_str("a line without equals\n"),
+                5 => {
+                    // a line without '=' whose text is a known key (must be ignored like any other such line)
+                    t.push_str(SCAN_KEYS[r.below(15)]);
+                    t.push_str(["\n", " \n", "\t\n"][r.below(3)]);
+                }
                 3 => t.push_str("   \n"),
                 4 => t.push_str("\r\n"),
                 _ => {}
@@ -481,7 +486,7 @@ pub fn search_c16(r: &mut Rng, iters: usize) -> bool {
     for fixed in ["PKGNAME=a-1\nCATEGORIES=x\n  PKGNAME=b-2\nMAINTAINER=m\n", "PKGNAME=a-1\n\n\nPKGNAME=b-2\n", "PKGNAME=a-1\nPKGNAME=b-1\n", "", "\n\n",
                   "PKGNAME=a-1\nCATEGORIES=x\nCATEGORIES=y\n", "CATEGORIES=y\nPKGNAME=a-1\n", "PKGNAME=a-1\nALL_DEPENDS=bad\n", "PKGNAME=a-1\nPKG_LOCATION=bad\n",
                   "PKGNAME=a-1\nPKG_LOCATION=\n", "PKGNAME=a-1\nPKG_LOCATION=cat/pkg\nPKG_LOCATION=\n", "PKGNAME=a-1\nSCAN_DEPENDS=\nMULTI_VERSION=\nALL_DEPENDS=\n",
-                  "PKGNAME=a-1\nPKG_SKIP_REASON=\n", "PKGNAME=a-1\nPKG_SKIP_REASON=s\n", "PKGNAME=a-1\nMULTI_VERSION=A=1\tB=2  C=3\n"] {
+                  "PKGNAME=a-1\nPKG_SKIP_REASON=\n", "PKGNAME=a-1\nMAINTAINER=m\nMAINTAINER\n", "PKGNAME=a-1\nSCAN_DEPENDS=x y\nSCAN_DEPENDS\nPKGNAME\n", "CATEGORIES=c\nPKGNAME\n", "PKGNAME=a-1\nPKG_SKIP_REASON=s\n", "PKGNAME=a-1\nMULTI_VERSION=A=1\tB=2  C=3\n"] {
         if !check_scan(fixed.as_bytes(), None) {
             return false;
         }
